@@ -17,7 +17,9 @@ from ..canon import short, canon     # noqa: E402
 ID = "C07"
 LEVEL = "model_checking"
 RULE = ("explicit-state BFS over histories of public mutating operations (setattr, item assignment, update, setdefault, "
-        "|=, delattr, del item, pop, popitem, clear, copy-then-mutate) x every key spelling (attribute, alias, alias_from, "
+        "|=, delattr, del item, pop, popitem, clear, copy-then-mutate, and 11 multi-key update / |= calls with mappings and "
+        "with other instances of the class as argument) on instances built by keyword, by __from__ and as a nested field, "
+        "x every key spelling (attribute, alias, alias_from, "
         "unknown) x {valid, convertible, invalid} values, on instances of a Schema and a DataClass with required / "
         "defaulted+constrained / optional / immutable / aliased / no_output / property fields under 6 class option sets; "
         "state = canon(dict items) + canon(__dict__), transition = one operation; a transition is non-trivial when it "
@@ -29,7 +31,8 @@ ASSUMPTIONS = [
     "the invariant is the statement's, evaluated with hand-written per-field predicates (name: str of length <= 5; "
     "age: int >= 0; tag: str; uid: int equal to its initial value; nickName: str; secret: str and never a key; "
     "label == name.upper())",
-    "multi-key update() calls are not in the alphabet: the statement speaks of single-key operations",
+    "multi-key update() / |= calls are judged by the invariant alone (the raise-and-unchanged clause of the statement "
+    "speaks of single-key operations)",
 ]
 
 OPTION_SETS = ["", "addition=True", "addition=int", "immutable=True", "ignore_delete_nonexistent=True",
@@ -70,7 +73,19 @@ FIELDS = {  # attribute -> (output name, spellings, values [(expr, kind)])
     "hint": ("hint", ["hint"], [("'z'", "valid")]),
 }
 UNKNOWN = ("zz", [("1", "valid"), ("'5'", "conv"), ("'x'", "other")])
-INIT = ["dict(name='al')", "dict(name='al', age=2, tag='g', nn='m', secret='q')"]
+# how the instance under mutation came to be: keyword construction, __from__ (leaves a parse context on the instance),
+# or parsed as a nested field of another data class
+INIT = ["S(name='al')", "S(name='al', age=2, tag='g', nn='m', secret='q')",
+        "S.__from__(dict(name='al', age='2', tag='g'))", "H(inner=dict(name='al', nn='m')).inner"]
+HOLDER = "\nclass H(Schema):\n    inner: S\n"
+# multi-key mutators (Schema only): judged by the invariant alone -- the statement's raise-and-unchanged clause speaks of
+# single-key operations
+MULTI = [
+    "s.update(S(name='zed', uid=7))", "s.update(S(name='zed'))", "s |= S(name='zed', uid=7)", "s |= S(name='zed', age=9)",
+    "s.update({'name': 'zed', 'age': -1})", "s.update({'age': 3, 'uid': 9})", "s.update(name='zed', uid=7)",
+    "s.update({'age': '6', 'name': 'toolong'})", "o = S(name='zed'); o.pop('label', None); s.update(o)",
+    "o = S(name='zed', age=9).copy(); s.update(o)", "s.update(H(inner=dict(name='kim', tag='w')).inner)",
+]
 
 
 def operations(base, tier):
@@ -109,6 +124,7 @@ def operations(base, tier):
         ops += [(f"del s[{k!r}]", f"del s[{k!r}]"), (f"s.pop({k!r}, None)", f"s.pop({k!r}, None)"),
                 ("s.popitem()", "s.popitem()"), ("s.clear()", "s.clear()"), ("copy; c.clear()", "c = s.copy(); c.clear()"),
                 ("copy; c.popitem()", "c = s.copy(); c.popitem()")]
+        ops += [("multi; " + m, m) for m in MULTI]
     return ops
 
 
@@ -135,7 +151,7 @@ def _exec(stmt, env):
 def build_class(base, opt_expr):
     env = dict(_NS)
     env["__name__"] = "utmc.ns"
-    src = SRC.format(name="S", base=base, options=f"    __options__ = Options({opt_expr})" if opt_expr else "")
+    src = SRC.format(name="S", base=base, options=f"    __options__ = Options({opt_expr})" if opt_expr else "") + HOLDER
     exec(src, env)
     return env["S"], src, env
 
@@ -152,7 +168,7 @@ def state_key(inst):
 
 
 def rebuild(cls, init_expr, hist, env):
-    inst = cls(**eval(init_expr, _NS))
+    inst = eval(init_expr, dict(env))
     for stmt in hist:
         e = dict(env)
         e["s"] = inst
@@ -339,7 +355,7 @@ def run_shard(shard, tier):
                     acc.nontrivial_add((shard, hist, stmt))
                 continue
             broken = False
-            if raised is not None and after != before:
+            if raised is not None and after != before and not label.startswith("multi;"):
                 broken = True
                 _viol(acc, base, opt_expr, src, init_expr, list(hist) + [stmt], label, "raised-but-changed",
                       f"raised {type(raised).__name__} but the data changed")
@@ -368,6 +384,8 @@ def finalize(total, tier):
 
 
 def _viol(acc, base, opt_expr, src, init_expr, hist, label, kind, msg):
+    if label.startswith("multi;"):
+        label = "s.multi_update()"
     opname = label.split("(")[0].split(" = ")[0] if not label.startswith("copy") else "copy"
     opname = "".join(ch for ch in opname.split("[")[0] if ch.isalpha() or ch in "._|= ") .strip()
     if label.startswith("s[") or label.startswith("del s["):
@@ -383,7 +401,7 @@ def _viol(acc, base, opt_expr, src, init_expr, hist, label, kind, msg):
         "cur = e.get('c', e['s']) if " + repr(bool(hist and hist[-1].startswith('c = s.copy()'))) + " else e['s']",
         "print('raised:', repr(raised)); print('state:', c07.snapshot(cur))",
         f"bad = c07.invariant(cls, cur, {opt_expr!r}, uid0, {base!r}) if isinstance(cur, cls) else [('type-lost', type(cur).__name__)]",
-        "if raised is not None and c07.state_key(s) != before: bad.append(('raised-but-changed', ''))",
+        "if raised is not None and c07.state_key(s) != before and " + repr(kind == "raised-but-changed") + ": bad.append(('raised-but-changed', ''))",
         "if c07.state_key(s) != before and 'c' in e: bad.append(('copy-shares-state', ''))",
         "print(bad)", "sys.exit(1 if bad else 0)"]) + "\n"
     acc.violation(fp, f"{base} Options({opt_expr}) init={init_expr} history={hist}: {msg}", script,
